@@ -215,6 +215,7 @@ def first_diff(a, b):
 
 SCENARIO_KEY = [("reused_", "rerun_on_same_machine_differs"), ("after_check", "run_after_check_differs"),
                 ("after_other_", "run_after_other_machines_differs"), ("after_rejected_other", "run_after_other_machines_differs"),
+                ("same_machine_after_other", "run_after_other_pipeline_on_same_machine_differs"),
                 ("fresh_again", "fresh_machine_rerun_differs")]
 
 
